@@ -13,6 +13,7 @@ import (
 	"github.com/go-git/go-git/v6/internal/verifrt"
 	"github.com/go-git/go-git/v6/plumbing"
 	gogithash "github.com/go-git/go-git/v6/plumbing/hash"
+	"github.com/go-git/go-git/v6/plumbing/storer"
 	gogitsync "github.com/go-git/go-git/v6/utils/sync"
 )
 
@@ -355,5 +356,136 @@ func VerifHarness_C09_parse_delta() {
 				verifrt.Assert(verifrt.BytesEq(s.content, want), "c09-parse-delta-content-is-gits")
 			}
 		}
+	}
+}
+
+// ---------- parse-delta-store (added after seed C09-2) ----------
+
+// verifC09Store is a minimal object store: whatever the parser writes can be
+// read back by name (names are the uninterpreted hash of header+content).
+type verifC09Stored struct {
+	typ     plumbing.ObjectType
+	content []byte
+	name    []byte
+	closed  bool
+}
+
+type verifC09Store struct {
+	lowMem  bool
+	written []*verifC09Stored
+}
+
+type verifC09W struct{ s *verifC09Stored }
+
+func (w verifC09W) Write(p []byte) (int, error) {
+	w.s.content = append(w.s.content, p...)
+	return len(p), nil
+}
+
+func (w verifC09W) Close() error {
+	if !w.s.closed {
+		w.s.closed = true
+		w.s.name = verifrt.HashUF(append(verifObjHeader(w.s.typ, int64(len(w.s.content))), w.s.content...), 20)
+	}
+	return nil
+}
+
+func (s *verifC09Store) LowMemoryMode() bool { return s.lowMem }
+
+func (s *verifC09Store) RawObjectWriter(typ plumbing.ObjectType, sz int64) (io.WriteCloser, error) {
+	st := &verifC09Stored{typ: typ}
+	s.written = append(s.written, st)
+	return verifC09W{st}, nil
+}
+
+func (s *verifC09Store) NewEncodedObject() plumbing.EncodedObject { return &plumbing.MemoryObject{} }
+
+func (s *verifC09Store) SetEncodedObject(plumbing.EncodedObject) (plumbing.Hash, error) {
+	panic("verif: SetEncodedObject not expected")
+}
+
+func (s *verifC09Store) EncodedObject(t plumbing.ObjectType, h plumbing.Hash) (plumbing.EncodedObject, error) {
+	for _, w := range s.written {
+		if w.closed && verifrt.BytesEq(h.Bytes(), w.name) {
+			o := &plumbing.MemoryObject{}
+			o.SetType(w.typ)
+			_, _ = o.Write(w.content)
+			return o, nil
+		}
+	}
+	return nil, plumbing.ErrObjectNotFound
+}
+
+func (s *verifC09Store) IterEncodedObjects(plumbing.ObjectType) (storer.EncodedObjectIter, error) {
+	panic("verif: IterEncodedObjects not expected")
+}
+
+func (s *verifC09Store) HasEncodedObject(h plumbing.Hash) error {
+	_, err := s.EncodedObject(plumbing.AnyObject, h)
+	return err
+}
+
+func (s *verifC09Store) EncodedObjectSize(h plumbing.Hash) (int64, error) {
+	o, err := s.EncodedObject(plumbing.AnyObject, h)
+	if err != nil {
+		return 0, err
+	}
+	return o.Size(), nil
+}
+
+func (s *verifC09Store) AddAlternate(string) error { return nil }
+
+// Two-entry pack, parsed WITH an object storage (and, SEEK=1, from a seekable
+// source; LOWMEM=1 also in the storage's low-memory mode): a blob with a
+// one-byte header at offset 12 and an OFS delta on it with a one-byte header
+// at offset 15 (offset byte 3). Every other byte is symbolic; the delta
+// stream is whatever the transducer inflater yields (<= ZOUT bytes). In these
+// modes the parser does not keep the base in memory: it reads it back from the
+// storage or re-inflates it. If Parse succeeds, git's patch_delta accepts the
+// delta stream against the base that was stored, the stored result is what
+// git computes, and it is named by the hash of its header and content.
+func VerifHarness_C09_parse_delta_store() {
+	verifC09Install()
+	verifrt.ZHeaderCheck = true
+	verifrt.ZMinIn = 2
+	verifrt.ZNoFail = true
+	n := verifrt.Param("N")
+	body := verifrt.NondetBytes(n)
+	verifrt.Assume(body[0]&0x80 == 0)
+	verifrt.Assume((body[0]>>4)&7 == 3) // blob
+	verifrt.Assume(body[3]&0x80 == 0)
+	verifrt.Assume((body[3]>>4)&7 == 6) // OFS delta
+	verifrt.Assume(body[4] == 3)        // on the entry at offset 12
+	pack := append(append([]byte{}, 'P', 'A', 'C', 'K', 0, 0, 0, 2, 0, 0, 0, 2), body...)
+
+	seekable := verifrt.Range(verifrt.Param("SEEK0"), verifrt.Param("SEEK")) == 1
+	store := &verifC09Store{lowMem: seekable && verifrt.Range(0, verifrt.Param("LOWMEM")) == 1}
+	var src io.Reader = verifPlainReader{bytes.NewReader(pack)}
+	if seekable {
+		src = bytes.NewReader(pack)
+	}
+	p := NewParser(src, WithStorage(store))
+	_, err := p.Parse()
+	if err != nil {
+		return // rejecting is always allowed
+	}
+	verifrt.Reach("c09-parse-store-accepted")
+	verifrt.Assert(len(store.written) == 2, "c09-parse-store-both-objects-stored")
+	if len(store.written) != 2 {
+		return
+	}
+	base, res := store.written[0], store.written[1]
+	verifrt.Assert(base.closed && res.closed, "c09-parse-store-objects-closed")
+	verifrt.Assert(base.typ == plumbing.BlobObject && res.typ == plumbing.BlobObject, "c09-parse-store-types")
+	// the delta stream is the second inflation (later inflations repeat earlier ones)
+	verifrt.Assert(len(verifrt.ZCalls) >= 2, "c09-parse-two-inflations")
+	delta := verifrt.ZCalls[1].Out
+	want, ok := gitPatchDelta(base.content, delta)
+	// the defect recorded as C06-short-delta, seen through the parser: git's
+	// patch_delta refuses every delta shorter than DELTA_SIZE_MIN (4) bytes
+	verifrt.Known("C09-short-delta-accepted-by-parser", len(delta) < 4)
+	verifrt.Assert(ok, "c09-parse-store-accepts-only-deltas-git-accepts")
+	if ok {
+		verifrt.Assert(verifrt.BytesEq(res.content, want), "c09-parse-store-delta-content-is-gits")
 	}
 }
